@@ -207,6 +207,47 @@ fn sweep_overlap() -> (u64, Vec<String>, Option<String>) {
   (tried, failing, first)
 }
 
+/// Third family (size scaling): `n - 1` members `tstr => any` and one member `tstr => tstr`, a document of `n`
+/// pairs of which exactly one has a text value, that pair encoded at every position.  The verdict must not depend
+/// on the position, for n = 2..=12 (a repair that is skipped or cut short above some claim count shows up here).
+fn sweep_scale() -> (u64, Vec<String>, Option<String>) {
+  let mut tried = 0u64;
+  let mut failing = vec![];
+  let mut first = None;
+  for n in 2usize..=12 {
+    let mut members: Vec<&str> = vec!["tstr => any"; n - 1];
+    members.push("tstr => tstr");
+    let schema = format!("m = {{ {} }}", members.join(", "));
+    let mut verdicts = vec![];
+    for pos in 0..n {
+      let mut bytes = vec![0xa0 | n as u8];
+      for i in 0..n {
+        bytes.extend_from_slice(&[0x62, b'k', b'a' + i as u8]);
+        if i == pos {
+          bytes.extend_from_slice(&[0x61, b'x']);
+        } else {
+          bytes.push(0x01);
+        }
+      }
+      let s = schema.clone();
+      tried += 1;
+      verdicts.push(match catch(move || cddl::validate_cbor_from_slice(&s, &bytes, None).is_ok()) {
+        Ok(true) => "ok",
+        Ok(false) => "invalid",
+        Err(_) => "panic",
+      });
+    }
+    if verdicts.iter().any(|v| *v != verdicts[0]) {
+      let id = format!("scale:tstr=>any x{} + tstr=>tstr:{}", n - 1, verdicts.join(","));
+      if first.is_none() {
+        first = Some(id.clone());
+      }
+      failing.push(id);
+    }
+  }
+  (tried, failing, first)
+}
+
 pub fn find(args: &[String]) -> i32 {
   let thorough = args.first().map(|s| s == "thorough").unwrap_or(false);
   let (mut tried, mut failing, mut first) = sweep(thorough);
@@ -215,6 +256,12 @@ pub fn find(args: &[String]) -> i32 {
   failing.extend(f2);
   if first.is_none() {
     first = first2;
+  }
+  let (t3, f3, first3) = sweep_scale();
+  tried += t3;
+  failing.extend(f3);
+  if first.is_none() {
+    first = first3;
   }
   println!(
     "{{\"found\":{},\"tried\":{},\"failing\":{},\"first\":{}}}",
@@ -236,6 +283,7 @@ pub fn replay(args: &[String]) -> i32 {
   let id = w["id"].as_str().unwrap_or("");
   let (_, mut failing, _) = sweep(true);
   failing.extend(sweep_overlap().1);
+  failing.extend(sweep_scale().1);
   if failing.iter().any(|f| f == id) {
     println!("{{\"violates\":true,\"real\":{}}}", jstr(&format!("instance still fails: {}", id)));
     1
